@@ -69,6 +69,15 @@ def run():
         prove('MOD_STEP aux %d' % (i_ + 1), x)
     ee = D(a + 1, n) - D(a, n)
     prove('MOD_STEP', mod_step(a, n), *(defs((a, n), (a + 1, n)) + [z3.substitute(aux[0], (e, ee)), z3.substitute(aux[1], (e, ee)), aux[2]]))
+    from contracts.fir import div_step, div_mono
+    prove('DIV_STEP', div_step(a, n), *(defs((a, n), (a + 1, n)) + [z3.substitute(aux[0], (e, ee)), z3.substitute(aux[1], (e, ee)), aux[2]]))
+    e3 = D(b, n) - D(a, n)
+    prove('DIV_MONO', div_mono(a, b, n), *(defs((a, n), (b, n)) + [z3.substitute(aux[1], (e, e3)), n * e3 == n * D(b, n) - n * D(a, n)]))
+    from contracts.fir import divmod_unique
+    qq, rr = z3.Ints('qq rr')
+    e4 = qq - D(a, n)
+    prove('DIVMOD_UNIQUE', divmod_unique(a, n, qq, rr),
+          *(defs((a, n)) + [z3.substitute(aux[0], (e, e4)), z3.substitute(aux[1], (e, e4)), n * e4 == n * qq - n * D(a, n), qq * n == n * qq]))
     from contracts.fftkernels import modadd
     prove('MODADD', modadd(a, k, n))
 
